@@ -47,18 +47,19 @@ func internFamilyType() *vh.TSpec {
 func c07Families() map[string][]*vh.TSpec {
 	n := vh.NamedT
 	return map[string][]*vh.TSpec{
-		"self-via-slice":  {n("Tree"), vh.SliceOf(n("Tree")), vh.PtrOf(n("Tree")), n("PairLeafTree")},
-		"self-via-ptr":    {n("List"), vh.PtrOf(n("List")), vh.SliceOf(n("List"))},
-		"mutual":          {n("MutA"), n("MutB"), vh.SliceOf(n("MutA")), vh.PtrOf(n("MutB")), vh.MapOf(vh.T(vh.KString), n("MutA"))},
-		"three-cycle":     {n("Cyc1"), n("Cyc2"), n("Cyc3"), vh.SliceOf(n("Cyc3")), vh.PtrOf(n("Cyc2"))},
-		"via-map-value":   {n("MapRec"), vh.MapOf(vh.T(vh.KString), n("MapRec")), vh.SliceOf(n("MapRec"))},
-		"via-ptr-slice":   {n("PtrSliceRec"), vh.SliceOf(vh.PtrOf(n("PtrSliceRec")))},
-		"deep-nesting":    {n("Mid"), n("Leaf"), vh.SliceOf(n("Leaf")), vh.PtrOf(n("Mid")), vh.MapOf(vh.T(vh.KInt), n("Mid"))},
-		"intern-and-pool": {internFamilyType(), vh.SliceOf(internFamilyType()), vh.PtrOf(internFamilyType())},
+		"self-via-slice":   {n("Tree"), vh.SliceOf(n("Tree")), vh.PtrOf(n("Tree")), n("PairLeafTree")},
+		"self-via-ptr":     {n("List"), vh.PtrOf(n("List")), vh.SliceOf(n("List"))},
+		"mutual":           {n("MutA"), n("MutB"), vh.SliceOf(n("MutA")), vh.PtrOf(n("MutB")), vh.MapOf(vh.T(vh.KString), n("MutA"))},
+		"three-cycle":      {n("Cyc1"), n("Cyc2"), n("Cyc3"), vh.SliceOf(n("Cyc3")), vh.PtrOf(n("Cyc2"))},
+		"via-map-value":    {n("MapRec"), vh.MapOf(vh.T(vh.KString), n("MapRec")), vh.SliceOf(n("MapRec"))},
+		"via-ptr-slice":    {n("PtrSliceRec"), vh.SliceOf(vh.PtrOf(n("PtrSliceRec")))},
+		"deep-nesting":     {n("Mid"), n("Leaf"), vh.SliceOf(n("Leaf")), vh.PtrOf(n("Mid")), vh.MapOf(vh.T(vh.KInt), n("Mid"))},
+		"tagged-recursion": {n("TreeP"), vh.SliceOf(n("TreeP")), vh.PtrOf(n("TreeP")), n("TagMutA"), n("TagMutB"), vh.StructOf(vh.FOpt("K", 1, "proto", vh.SliceOf(n("TreeP"))), vh.F("Z", 2, vh.T(vh.KInt)))},
+		"intern-and-pool":  {internFamilyType(), vh.SliceOf(internFamilyType()), vh.PtrOf(internFamilyType())},
 	}
 }
 
-var c07FamilyNames = []string{"self-via-slice", "self-via-ptr", "mutual", "three-cycle", "via-map-value", "via-ptr-slice", "deep-nesting", "intern-and-pool"}
+var c07FamilyNames = []string{"tagged-recursion", "self-via-slice", "self-via-ptr", "mutual", "three-cycle", "via-map-value", "via-ptr-slice", "deep-nesting", "intern-and-pool"}
 
 func genC07Ops(t *rapid.T, fam []*vh.TSpec, cfg vh.Cfg, n int) []c07Op {
 	ops := make([]c07Op, n)
